@@ -28,6 +28,7 @@ Inductive tok :=
 | TSq (s : str)                  (* '...' *)
 | TDq (l : list (bool * N))      (* "...", (true,c) = \c *)
 | TPE (s : str)                  (* ${...} *)
+| TAnsi (l : list (bool * N))    (* $'...' *)
 | TBr (l : list tok)             (* {...} *)
 | TPar (l : list tok).           (* (...) *)
 
@@ -73,6 +74,7 @@ Fixpoint render_tok (t : tok) : str :=
   | TSq s => [cSQ] ++ s ++ [cSQ]
   | TDq l => [cDQ] ++ render_pairs l ++ [cDQ]
   | TPE s => [cDOL; cLB] ++ s ++ [cRB]
+  | TAnsi l => [cDOL; cSQ] ++ render_pairs l ++ [cSQ]
   | TBr l => [cLB] ++ flat_map render_tok l ++ [cRB]
   | TPar l => [cLP] ++ flat_map render_tok l ++ [cRP]
   end.
@@ -185,6 +187,7 @@ Fixpoint tok_ok (inner : bool) (t : tok) : bool :=
   | TSq s => forallb sq_char s
   | TDq l => forallb dq_pair l
   | TPE s => forallb pe_char s
+  | TAnsi l => forallb ansi_pair l
   | TBr l => forallb (tok_ok true) l
   | TPar l => forallb (tok_ok true) l
   end.
@@ -247,4 +250,4 @@ Definition def_ok (d : def) : bool :=
 
 (* stream "render": the AST the harness parsed from bash's own text must render back to it, and
    the acceptor tells whether the theorem's hypothesis covers it *)
-Definition run_render (ds : list def) : val := VL [VS (render ds); VB (forallb def_ok ds)].
+Definition run_render (ds : list def) : val := digest (render ds).
